@@ -40,7 +40,7 @@ func (check) StallSeconds() int { return 20 }
 func (check) Exhaustive(string) bool { return false }
 
 func (check) Rule() string {
-	return "fourteen workloads split over the case index. (a) strings: all strings of length <=5 over `[]{}\"',:\\a1 ` (quick: all <=3 plus a seed-chosen sample of lengths 4-5) through parse.Value, parse.ValueWithConfig under all 32 parse.Config flag combinations (24 legal, 8 illegal), flag.NewFlagKeyValue.Set/String and a ${ENV} reference read with ResolveEnv; all strings of length <=6 over `${}:+?a.0-` (quick: all <=3 plus a sample of 4-6) stored as a setting under VarExp and read with String/Unpack/Has/CountField/FlattenedKeys/Child without resolver and with resolvers echoing bracket-ish text ({ [1, ${a} ...) under the three predefined parse configs. (b) bytes: documents rendered from small trees as JSON, flow/block YAML and HJSON, then bit flips, token deletion/duplication/swap/replacement, garbage insertion, truncation at every offset, pure garbage, nesting up to depth 10000, anchors/aliases/merge keys/tags, through the yaml/json/hjson loaders with {none, PathSep, PathSep+VarExp}; whatever loads is unpacked into map and slice, flattened and probed with Has/String. (c) names x indices: every getter/setter/Has/Remove/Child/CountField/SetChild/NewFrom/Merge with names from a key-spelling table (plus numeric literals just above every index limit) x idx from MinInt..MaxInt on 10 config shapes (incl. nil values, unresolvable and cyclic references) x 10 option sets (quick: a seed-chosen sample of the units, thorough: all). (d) Unpack targets: a table of ~340 target rows (nil, non-pointers, typed nil pointers, nil/typed interfaces, chan/func/unsafe.Pointer/complex, non-string map keys, pre-filled maps/slices/arrays of structs, pointers, interfaces, arrays as map values, recursive types, unexported/embedded fields, inline tags on every kind, callbacks returning errors, pointer-to-map/slice elements, named primitives, Config and rebranded Config targets, every built-in validator on a field of every kind, malformed validator tags) x 21 config fixtures (matching, primitive/object/list mismatches, nil, references incl. cyclic, unresolvable and to ancestors) x 4 option sets, exhaustively in both tiers; recursive pointer types against next-chains of depth 1..50; plus random reflect-built target types with random pre-fill and random configs. (e) one input that spells a namespace more than once: a small tree T and a variant T' (1-3 point mutations: primitive <-> object <-> list <-> nil, push down, pull up) are cut at random depths into entries (joined path -> subtree, numeric segments for list elements, optionally more joined keys inside the values, optionally *Config values), a shuffled subset of 2-5 entries of both is presented in the drawn and in the reverse order as struct with tagged fields (untyped/typed, random ,replace/,append/,prepend/,merge tag options), struct of inline one-key maps, struct of inline values, such a struct under a key / in a list / inlined into an outer struct, string- and interface-keyed maps filled in that order, and as JSON + one of pretty JSON/block YAML/flow YAML/HJSON documents through the three loaders; every Go presentation goes to NewFrom and to Merge into a config holding T under 9 option sets (none, PathSep with separator from {. / :: -}, +VarExp, +EnableNumKeys, +EscapePath, +MaxIdx(7), +ReplaceValues, +AppendValues, +PrependValues+VarExp) and whatever comes out is unpacked into map and slice, flattened and probed with Has/Child; the panic signature carries what the entries say about a shared path (disjoint, shared-namespace-only, nil-meets-value, primitive-twice, object-vs-primitive; computed by a walk over the generator's own trees). (f) histories on one list (top level, nested, nested in a list under VarExp, the root itself; 0-9 initial elements): 2-10 steps mixing Remove(name,i), Set*(name,idx) with idx drawn around the current length, the previous lengths, the initial and the largest length so far, the next power of two, and merges that append/prepend/replace/merge by index; after every step the list is counted and probed with Has at every index, after a seed-chosen half of the steps and at the end it is traversed by Unpack (map, slice, struct), FlattenedKeys, Merge with the config as source (into an empty, a longer and an appending destination), NewFrom(config), NewFrom({x: config, y: [config]}), Child of the list and Child/String of every element; the signature carries the state of the history (set-behind-end-after-remove, set-behind-end, remove-then-set-or-append, set-or-append-only). (g) a ucfg.Config not made by New (pointer, value, pointer to pointer, rebranded, nil pointer) as source of NewFrom and Merge (into New(), a dictionary, a list, a zero value) at the top level and embedded as map value, list element, typed map/slice/array element, struct field, inline field, interface field, under a dotted key, in a reflect-built struct, under 5 option sets, read afterwards and merged a second time; plus 25 readers/writers called on a zero-value receiver. (h) nesting depths 10^3..3*2^20 (quick: 4 depths and 25 of the (route, shape) pairs, thorough: 7 depths and all 100; open/closed lists, objects, mixed, spaced; for documents also block sequences and a reference at the bottom) through parse.Value, parse.ValueWithConfig under 4 configs with arrays, a flag value, an ${ENV} value, a resolver answer and the three loaders without and with PathSep+VarExp (whatever loads is unpacked, flattened and copied) - each (route, shape) in a probe process of its own under the workers' 64 MiB stack cap, ascending depths, so that a fatal error is observed, attributed to the package that recurses and signed, instead of killing the worker. (i) Merge under a global policy (default, ReplaceValues, ReplaceArrValues, AppendValues, PrependValues) x 0-3 per-field options (Field{Merge,Replace,Append,Prepend}Values over 25 plain, dotted, indexed and wildcard names) with PathSep before or after them, onto destinations whose settings are mostly REFERENCES (to primitives, lists, objects, nothing, themselves, their own children, with defaults, spliced), update and destination over the same five keys; merged twice, as Go value and as *Config, unpacked into a pre-filled struct of *Config/map/slice, everything read afterwards; signature carries global policy / field options (after PathSep or not) / onto references or not. (k) arguments: 34 targets with fields/elements of INTERFACE types that hold InitDefaults, Unpack or Validate in their method set (nil and set) x 21 configs x 4 option sets; 30 rows of unsupported or awkward Go values (complex, uintptr, unsafe.Pointer, chan, func, regexp.Regexp and time values by value in unaddressable positions, special floats, named kinds) through NewFrom and Merge into 4 destinations under 5 option sets; SetChild with a nil and a zero-value child x 4 shapes x 3 option sets x 6 names x 4 indices; diff.Type(n).String() for 12 values of n, diff.CompareConfigs with nil configs. (l) wide inputs judged by allocation growth, not by time: for 26 units (a top-level list / a list below a key / a list of lists through the three loaders, NewFrom+Unpack+FlattenedKeys, Merge onto a shorter list under every policy, by index, at top level, Unpack with append tag; strings under VarExp made of n escapes, references, defaults, stray specials, inside and outside an expansion) the bytes allocated (runtime.MemStats.TotalAlloc) for n and 4n units of input must not differ by more than a factor 8 (proportional: 4, re-copying per unit: 16); a unit that passes is run with 10^5 (thorough and the JSON top-level list: 10^6) units where the allocation per unit must stay within 3 x; plus references that multiply (monitored only). (m) rows that can only be judged from outside the process, in probe processes with a heap (256 MB) and processor-time (4 s per row) watchdog: 20 Unpack targets of NAMED pointer types x 6 configs; 9 ways of making a configuration its own descendant with SetChild (receiver, ancestor, ring of three, list element) x 12 walks. (n) as (h): ${...} nested up to 300 000 (thorough 2^20) deep as references, defaults, alternatives, unterminated, read with String/Unpack and inside a JSON document; names of up to 2^20 (thorough 3*2^20) path segments as map key, document key, name argument of SetInt/Int/Has/Child/Remove, inside a ${reference} and as flag name. (m, continued) settings that use each other in LAYERS (diamonds with spliced and with plain middles, three-way fans, diamonds through defaults/alternatives, two-wide ladders, diamonds inside objects and lists, random layered graphs; all leaves empty so that only the work can multiply) at 4, 12, 24, 40, 64 levels, read with String, Unpack, FlattenedKeys, Has, twice; 13 target types that INLINE a pointer to themselves (directly, through a second and a third type, embedded, next to a named pointer, through an inline map / interface, with validators, as map/slice element and field) x 6 configs x 3 option sets, also as Merge source. (o) 38 special and boundary VALUES (NaN, infinities, negative zero, huge/tiny floats, ends of the integer ranges, numbers and durations only text can spell) x how they get into the configuration (Go value, YAML text, through a ${reference}) x position (setting, list element, map value) x 24 target types x 16 validator tags (none, required/nonzero/positive, min/max with ordinary, huge, non-numeric, NaN, duration parameters), enumerated completely in both tiers, plus the typed getters. Non-trivial = non-empty input that reached the library; distinct = distinct (workload, input) pair."
+	return "fifteen workloads split over the case index. (a) strings: all strings of length <=5 over `[]{}\"',:\\a1 ` (quick: all <=3 plus a seed-chosen sample of lengths 4-5) through parse.Value, parse.ValueWithConfig under all 32 parse.Config flag combinations (24 legal, 8 illegal), flag.NewFlagKeyValue.Set/String and a ${ENV} reference read with ResolveEnv; all strings of length <=6 over `${}:+?a.0-` (quick: all <=3 plus a sample of 4-6) stored as a setting under VarExp and read with String/Unpack/Has/CountField/FlattenedKeys/Child without resolver and with resolvers echoing bracket-ish text ({ [1, ${a} ...) under the three predefined parse configs. (b) bytes: documents rendered from small trees as JSON, flow/block YAML and HJSON, then bit flips, token deletion/duplication/swap/replacement, garbage insertion, truncation at every offset, pure garbage, nesting up to depth 10000, anchors/aliases/merge keys/tags, through the yaml/json/hjson loaders with {none, PathSep, PathSep+VarExp}; whatever loads is unpacked into map and slice, flattened and probed with Has/String. (c) names x indices: every getter/setter/Has/Remove/Child/CountField/SetChild/NewFrom/Merge with names from a key-spelling table (plus numeric literals just above every index limit) x idx from MinInt..MaxInt on 10 config shapes (incl. nil values, unresolvable and cyclic references) x 10 option sets (quick: a seed-chosen sample of the units, thorough: all). (d) Unpack targets: a table of ~340 target rows (nil, non-pointers, typed nil pointers, nil/typed interfaces, chan/func/unsafe.Pointer/complex, non-string map keys, pre-filled maps/slices/arrays of structs, pointers, interfaces, arrays as map values, recursive types, unexported/embedded fields, inline tags on every kind, callbacks returning errors, pointer-to-map/slice elements, named primitives, Config and rebranded Config targets, every built-in validator on a field of every kind, malformed validator tags) x 21 config fixtures (matching, primitive/object/list mismatches, nil, references incl. cyclic, unresolvable and to ancestors) x 4 option sets, exhaustively in both tiers; recursive pointer types against next-chains of depth 1..50; plus random reflect-built target types with random pre-fill and random configs. (e) one input that spells a namespace more than once: a small tree T and a variant T' (1-3 point mutations: primitive <-> object <-> list <-> nil, push down, pull up) are cut at random depths into entries (joined path -> subtree, numeric segments for list elements, optionally more joined keys inside the values, optionally *Config values), a shuffled subset of 2-5 entries of both is presented in the drawn and in the reverse order as struct with tagged fields (untyped/typed, random ,replace/,append/,prepend/,merge tag options), struct of inline one-key maps, struct of inline values, such a struct under a key / in a list / inlined into an outer struct, string- and interface-keyed maps filled in that order, and as JSON + one of pretty JSON/block YAML/flow YAML/HJSON documents through the three loaders; every Go presentation goes to NewFrom and to Merge into a config holding T under 9 option sets (none, PathSep with separator from {. / :: -}, +VarExp, +EnableNumKeys, +EscapePath, +MaxIdx(7), +ReplaceValues, +AppendValues, +PrependValues+VarExp) and whatever comes out is unpacked into map and slice, flattened and probed with Has/Child; the panic signature carries what the entries say about a shared path (disjoint, shared-namespace-only, nil-meets-value, primitive-twice, object-vs-primitive; computed by a walk over the generator's own trees). (f) histories on one list (top level, nested, nested in a list under VarExp, the root itself; 0-9 initial elements): 2-10 steps mixing Remove(name,i), Set*(name,idx) with idx drawn around the current length, the previous lengths, the initial and the largest length so far, the next power of two, and merges that append/prepend/replace/merge by index; after every step the list is counted and probed with Has at every index, after a seed-chosen half of the steps and at the end it is traversed by Unpack (map, slice, struct), FlattenedKeys, Merge with the config as source (into an empty, a longer and an appending destination), NewFrom(config), NewFrom({x: config, y: [config]}), Child of the list and Child/String of every element; the signature carries the state of the history (set-behind-end-after-remove, set-behind-end, remove-then-set-or-append, set-or-append-only). (g) a ucfg.Config not made by New (pointer, value, pointer to pointer, rebranded, nil pointer) as source of NewFrom and Merge (into New(), a dictionary, a list, a zero value) at the top level and embedded as map value, list element, typed map/slice/array element, struct field, inline field, interface field, under a dotted key, in a reflect-built struct, under 5 option sets, read afterwards and merged a second time; plus 25 readers/writers called on a zero-value receiver. (h) nesting depths 10^3..3*2^20 (quick: 4 depths and 25 of the (route, shape) pairs, thorough: 7 depths and all 100; open/closed lists, objects, mixed, spaced; for documents also block sequences and a reference at the bottom) through parse.Value, parse.ValueWithConfig under 4 configs with arrays, a flag value, an ${ENV} value, a resolver answer and the three loaders without and with PathSep+VarExp (whatever loads is unpacked, flattened and copied) - each (route, shape) in a probe process of its own under the workers' 64 MiB stack cap, ascending depths, so that a fatal error is observed, attributed to the package that recurses and signed, instead of killing the worker. (i) Merge under a global policy (default, ReplaceValues, ReplaceArrValues, AppendValues, PrependValues) x 0-3 per-field options (Field{Merge,Replace,Append,Prepend}Values over 25 plain, dotted, indexed and wildcard names) with PathSep before or after them, onto destinations whose settings are mostly REFERENCES (to primitives, lists, objects, nothing, themselves, their own children, with defaults, spliced), update and destination over the same five keys; merged twice, as Go value and as *Config, unpacked into a pre-filled struct of *Config/map/slice, everything read afterwards; signature carries global policy / field options (after PathSep or not) / onto references or not. (k) arguments: 34 targets with fields/elements of INTERFACE types that hold InitDefaults, Unpack or Validate in their method set (nil and set) x 21 configs x 4 option sets; 30 rows of unsupported or awkward Go values (complex, uintptr, unsafe.Pointer, chan, func, regexp.Regexp and time values by value in unaddressable positions, special floats, named kinds) through NewFrom and Merge into 4 destinations under 5 option sets; SetChild with a nil and a zero-value child x 4 shapes x 3 option sets x 6 names x 4 indices; diff.Type(n).String() for 12 values of n, diff.CompareConfigs with nil configs. (l) wide inputs judged by allocation growth, not by time: for 26 units (a top-level list / a list below a key / a list of lists through the three loaders, NewFrom+Unpack+FlattenedKeys, Merge onto a shorter list under every policy, by index, at top level, Unpack with append tag; strings under VarExp made of n escapes, references, defaults, stray specials, inside and outside an expansion) the bytes allocated (runtime.MemStats.TotalAlloc) for n and 4n units of input must not differ by more than a factor 8 (proportional: 4, re-copying per unit: 16); a unit that passes is run with 10^5 (thorough and the JSON top-level list: 10^6) units where the allocation per unit must stay within 3 x; plus references that multiply (monitored only). (m) rows that can only be judged from outside the process, in probe processes with a heap (256 MB) and processor-time (4 s per row) watchdog: 20 Unpack targets of NAMED pointer types x 6 configs; 9 ways of making a configuration its own descendant with SetChild (receiver, ancestor, ring of three, list element) x 12 walks. (n) as (h): ${...} nested up to 300 000 (thorough 2^20) deep as references, defaults, alternatives, unterminated, read with String/Unpack and inside a JSON document; names of up to 2^20 (thorough 3*2^20) path segments as map key, document key, name argument of SetInt/Int/Has/Child/Remove, inside a ${reference} and as flag name. (m, continued) settings that use each other in LAYERS (diamonds with spliced and with plain middles, three-way fans, diamonds through defaults/alternatives, two-wide ladders, diamonds inside objects and lists, random layered graphs; all leaves empty so that only the work can multiply) at 4, 12, 24, 40, 64 levels, read with String, Unpack, FlattenedKeys, Has, twice; 13 target types that INLINE a pointer to themselves (directly, through a second and a third type, embedded, next to a named pointer, through an inline map / interface, with validators, as map/slice element and field) x 6 configs x 3 option sets, also as Merge source. (o) 38 special and boundary VALUES (NaN, infinities, negative zero, huge/tiny floats, ends of the integer ranges, numbers and durations only text can spell) x how they get into the configuration (Go value, YAML text, through a ${reference}) x position (setting, list element, map value) x 24 target types x 16 validator tags (none, required/nonzero/positive, min/max with ordinary, huge, non-numeric, NaN, duration parameters), enumerated completely in both tiers, plus the typed getters. (p) Go values that CONTAIN THEMSELVES, each row in a probe process (heap and processor-time watchdog, fatal errors signed from the runtime report): 28 shapes of cycle (named pointer, inline pointer with the inline field first / alone / after a named field / embedded / below a named field, map key and list / by value, two and three types inlining pointers to each other, named mutual pointers, map, slice, interface field, inline map, inline interface, typed map and slice, pointer to an interface holding it, map+slice with two routes back, slice and map of pointers, array element; one shared-not-cyclic control) as SOURCE of NewFrom, Merge into an empty and into a populated destination (read afterwards), option set rotating over none / PathSep+AppendValues / ReplaceValues / VarExp+PrependValues; 17 shapes of cyclic pre-filled Unpack TARGETS (cycle through interface{} in a map / slice / field / array element / validated fields / two values holding each other, through a pointer, typed map, typed slice, slice and map of pointers, pointer to interface, inline pointer, inline interface; one shared-not-cyclic control) x 4 configs (two WITHOUT any setting on the cycle: the pre-filled value is only validated; settings for the fields on the cycle; primitives where the cycle is) x 3 option sets; the signature names the kind of edge that closes the cycle. Non-trivial = non-empty input that reached the library; distinct = distinct (workload, input) pair."
 }
 
 func (check) Assumptions() []string {
@@ -48,7 +48,7 @@ func (check) Assumptions() []string {
 		"only crashes, hangs, leaks and list sizes are judged; every returned value or error is accepted",
 		"slot bound of a call = max(MaxIdx+1, number of elements (for loaders: bytes) the caller's own data contains); MaxIdx is 1024 unless the case passes ucfg.MaxIdx",
 		"a panic whose innermost non-stdlib frame is in yaml.v2 / hjson-go / encoding/json is reported as decoder-panic:<pkg>, not as a go-ucfg panic",
-		"not generated: cyclic Go values passed to Merge/NewFrom or pre-filled into targets, user callbacks that panic, Go values (as opposed to text) nested deeper than a few dozen levels",
+		"workload (p): a cyclic Go value may be accepted or refused with any error - it only has to return (within 4 s of processor time and 256 MB of heap in the probe process); not generated: user callbacks that panic, Go values (as opposed to text) nested deeper than a few dozen levels",
 		"workload (h): text nested up to 3*2^20 deep is executed in a probe process (this binary started again, taken over by an init function of this package before main) with the same limits as a worker (64 MiB goroutine stack, 4 GiB address space); a probe that dies is a violation signed from the runtime's own report on its stderr, one that uses more than 15 s of processor time is signed hang:deep-nesting:<kind of text>; the in-process workloads stay at or below 10000 levels",
 		"workload (l): 'returns' for wide inputs is judged by a logical cost - bytes allocated for n and 4n units of input (factor bound 8) - never by wall time; an implementation that is slow by a constant factor passes",
 		"not judged (monitored only): the SIZE of a correctly computed value. References that multiply (a0 = ${a1}${a1}, ... 37 lines -> 64 GB) make String/Unpack allocate what the result needs; the statement bounds array slots by MaxIdx and says nothing about the length of an expanded string or the number of nodes reached through references - a cap would be a new configured limit, not a correction",
@@ -102,9 +102,10 @@ func plan(tier string) []segment {
 		{"l-growth", growthCases(), runGrowth},
 		{"i-merge-policies", pick(300, 20000), runMergePolicies},
 		{"k-arguments", argumentCases(), runArguments},
-		{"m-probe-units", len(probeUnits), runProbeUnit},
+		{"m-probe-units", firstCyclicUnit, runProbeUnit},
 		{"n-deep-expressions-and-paths", deepCasesR4(tier), runDeepR4},
 		{"o-special-values", specialCases(), runSpecialValues},
+		{"p-cyclic-go-values", cyclicUnits, runCyclicUnit},
 	}
 }
 
